@@ -15,7 +15,9 @@ Import ListNotations.
     flags answer every request alike ([C09_flags_never_change_a_result]).
     Reference changes, read by name or by attribute path inside uncached
     cells, are covered (third theorem).  The depth-limit error is excluded
-    from (4): the executor's stack bound is not part of the specification. *)
+    from (4): the executor's stack bound is not part of the specification;
+    so are the requests during which the failing clean-up of a try/finally
+    replaced that error ([s_masks] unchanged; see C01, [Exec/FinMask.v]). *)
 Theorem C09_flag_change_keeps_invariant : forall fuel st c b x st',
   step fuel st (OpSetCached c b) = (x, st') -> x <> OFuel -> Quiet st -> s_reent st = false ->
   s_reent st' = true \/ Quiet st'.
@@ -33,7 +35,7 @@ Theorem C09_histories_with_flag_changes : forall fuel cells refs maxd ops xs st,
   Quiet st /\
   (forall i v, lookup_data (s_data st) i = Some v ->
      mem_item i (s_inputs st) = true \/ exists f, spec_eval f st i = Val v) /\
-  (forall i r st', eval_top fuel st i = (r, st') -> r <> OutOfFuel ->
+  (forall i r st', eval_top fuel st i = (r, st') -> r <> OutOfFuel -> s_masks st' = s_masks st ->
      agrees r (fun g => spec_eval g st i)).
 Proof. exact history_correct2. Qed.
 Print Assumptions C09_histories_with_flag_changes.
@@ -52,7 +54,8 @@ Theorem C09_flags_never_change_a_result : forall fuel st1 st2 i r1 r2 st1' st2',
   flags_only (s_cells st1) (s_cells st2) -> s_refs st1 = s_refs st2 ->
   (forall j, lookup_data (input_data st1) j = lookup_data (input_data st2) j) ->
   eval_top fuel st1 i = (r1, st1') -> eval_top fuel st2 i = (r2, st2') ->
-  r1 <> OutOfFuel -> r2 <> OutOfFuel -> r1 <> Err KDeep -> r2 <> Err KDeep -> r1 = r2.
+  r1 <> OutOfFuel -> r2 <> OutOfFuel -> r1 <> Err KDeep -> r2 <> Err KDeep ->
+  s_masks st1' = s_masks st1 -> s_masks st2' = s_masks st2 -> r1 = r2.
 Proof. exact flags_never_change_a_result. Qed.
 Print Assumptions C09_flags_never_change_a_result.
 
